@@ -47,6 +47,8 @@ DSL = {
     "cls_meta": (["AnyFrom", "]", "\\", "^", "-", "a"], ["]", "\\", "^-", "b"]),
     "neg_cls": (N("OneOrMore", ["AnyButFrom", "a", "\n", " "]), ["bcd", "a", "x y"]),
     "ci_group": (N("Group", ["lit", "abc"], True), ["ABC", "aBc", "ab"]),
+    "ci_prefix": (["op", "+", N("Group", ["lit", "ab"], True), ["lit", "cd"]], ["ABcd", "abCD", "ABCD", "abcd"]),
+    "ci_suffix": (["op", "+", ["lit", "Ab"], N("Group", N("Either", ["lit", "x"], ["lit", "yz"]), True)], ["AbX", "abx", "AbYZ", "Abyz"]),
     "exactly": (N("Exactly", D, 3), ["123", "12", "12345"]),
     "lazy": (["op", "+", ["op", "+", ["lit", "<"], N("OneOrMore", ["Any"], False)], ["lit", ">"]], ["<a>", "<a><b>", "<\n>"]),
     "empty": (["empty"], ["", "a"]),
